@@ -994,6 +994,15 @@ func recurringGrid(emit func(string)) {
 			}
 		}
 	}
+	// a rule without DTSTART has no instance to compare (rrule-go would start it at time.Now())
+	for _, rule := range []string{"FREQ=DAILY;COUNT=2", "FREQ=DAILY"} {
+		for _, extra := range [][]gprop{nil, {P("DURATION", "PT1H")}, {P("DTEND", utc(gridBase))}} {
+			text := cal(gcomp{name: "VEVENT", props: append([]gprop{P("RRULE", rule)}, extra...)}).text()
+			for _, tr := range gridRanges(gridBase, 3600) {
+				emit(matchIn(eventFilter(tr), text))
+			}
+		}
+	}
 	// a recurring component that is not an event: match.go treats its DTSTART/DTEND/DURATION alike
 	for _, kind := range []int{0, 2, 4} {
 		for _, count := range []int{2, 0} {
